@@ -287,6 +287,12 @@ class PipeGen(object):
                                '$d.n', '$d.z'])
         if self.r.random() < 0.03:
             spec = self.r.choice([{}, None, 'a', 5, []])
+        elif self.r.random() < 0.12:
+            # entries that read what other entries of the same stage write
+            spec = self.r.choice([{'a': '$k', 'k': '$a'},
+                                  {'k': {'$add': ['$k', 1]}, 'r': '$k'},
+                                  {'s': '$g', 'g': '$s', 'r': '$g'},
+                                  {'a': {'$literal': 7}, 'r2': {'$add': ['$a', 1]}}])
         return {op: spec}
 
     def st_replaceroot(self, docs):
